@@ -526,6 +526,26 @@ def rule_D3_escape(ctx, typer, clsname, quoted=True):
         break
     mod = esc.module
     n += 1
+    # escaping written as a chain of str.replace calls instead of one regular expression
+    reps = [c for c in walk_own(esc.node) if isinstance(c, ast.Call) and isinstance(c.func, ast.Attribute) and c.func.attr == "replace"
+            and len(c.args) == 2 and all(isinstance(a_, ast.Constant) and isinstance(a_.value, str) for a_ in c.args)]
+    if reps and not any(isinstance(c, ast.Call) and isinstance(c.func, ast.Attribute) and c.func.attr in ("sub", "subn") for c in walk_own(esc.node)):
+        reps.sort(key=lambda c: (c.lineno, c.col_offset))
+        pairs = [(c.args[0].value, c.args[1].value) for c in reps]
+        olds = [o for o, _ in pairs]
+        if set(olds) != {'"', "\\"[:1]} or len(olds) != 2:
+            ctx.viol("D3", esc, reps[0], "the replacements cover %s, not exactly the double quote and the backslash" % sorted(set(olds)),
+                     construct="esc: replace chain covers %s" % sorted(set(olds)))
+        elif any(new_ != "\\"[:1] + old_ for old_, new_ in pairs):
+            ctx.viol("D3", esc, reps[0], "a replacement does not prefix the character with exactly one backslash: %s" % pairs,
+                     construct="esc: replace chain replacement")
+        elif olds[0] != "\\"[:1]:
+            ctx.viol("D3", esc, reps[0], "the quote is escaped before the backslash: the backslash just inserted in front of the quote is then "
+                     "escaped itself, so a name containing both characters comes out wrong", construct="esc: replace chain order")
+        else:
+            ctx.inst("D3", esc, reps[0], "backslashes escaped first, then double quotes, each by one backslash")
+            ctx.inst("D3", esc, reps[1], "replace chain covers '\"' and '\\'")
+        return n + 1
     subs0 = [c for c in walk_own(esc.node) if isinstance(c, ast.Call) and isinstance(c.func, ast.Attribute) and c.func.attr in ("sub", "subn")
              and isinstance(c.func.value, ast.Name)]
     patname = subs0[0].func.value.id if subs0 else "_RE_ESC"
